@@ -30,6 +30,9 @@ import (
 type KeyData struct {
 	Value    interface{}
 	ExpireAt time.Time
+	// Mem is what this entry currently contributes to the server's memory usage figure
+	// (value, deadline, key header and key bytes). Bookkeeping only: it is not persisted.
+	Mem int64 `json:"-"`
 }
 
 func (k *KeyData) GetMem() (int64, error) {
